@@ -1340,6 +1340,23 @@ fn scripted() -> Vec<(&'static str, Vec<Act>)> {
             Act::Resp { c: 2, key: HONEST, over: Val::Issued(2, 0), sig: SigKind::Valid, ver: VerKind::NewerWallet, echo: Val::Zero },
         ],
     ));
+    // key pin of a static entry across a re-dial: the entry was authenticated under key 2; after the
+    // re-dial a valid answer by another key is rejected and the entry keeps key 2
+    v.push((
+        "static-redial-key-pin",
+        vec![
+            Act::New(1),
+            Act::Chal { c: 1, x: Val::Fresh },
+            genuine(1, HONEST),
+            Act::Disc(1, true),
+            Act::New(1),
+            Act::Chal { c: 1, x: Val::Fresh },
+            genuine(1, 3),
+            Act::New(1),
+            Act::Chal { c: 1, x: Val::Fresh },
+            genuine(1, HONEST),
+        ],
+    ));
     // every version class, upward and downward, each on a fresh challenge
     {
         let mut acts = vec![];
